@@ -13,13 +13,15 @@ RULE = (
     "every N in 1..Nmax x every batchsize 1..N+1 and num_batches 1..N+2 x "
     "{grid, case list, cases x sub-grid} x shuffle x constants source; each "
     "sown into a fresh crop, every batch read back by growing it with a "
-    "recording function; non-trivial = N >= 2 and at least 2 batches"
+    "recording function; plus crops of 101-257 batches; plus (farmer "
+    "constants) the farmer's stored constants / resources changed and the "
+    "same Crop object sown again; non-trivial = N >= 2 and at least 2 batches"
 )
 ASSUMPTIONS = [
     "batch contents are observed through xyz.grow(i, crop, fn=recorder), "
     "i.e. what a worker would really be handed",
-    "one sow per fresh crop directory (re-sowing over stale batch files is "
-    "C08's subject)",
+    "re-sowing is limited to the same number of settings (re-sowing over "
+    "stale batch files of another size is C08's subject)",
 ]
 
 POOL_A = [3, 1, 2, 0, 7, 5, 4, 6]
@@ -95,6 +97,18 @@ def cases(tier, seed):
                    "shuffle": shuffle, "const": const,
                    "resow": const.startswith("farmer")
                    and (n + (req or 0)) % 3 == 0}
+
+
+    # crops with more than 100 batches (three-digit ids, any internal window)
+    big = [(101, "batchsize", 1), (128, "num_batches", 128),
+           (130, "num_batches", 101), (1010, "batchsize", 10),
+           (257, "default", None)]
+    for bi, (n, mode, req) in enumerate(big):
+        for vi, (kind, shuffle, const) in enumerate(variants):
+            if (vi + bi) % (2 if tier == "thorough" else 4) == 0:
+                yield {"n": n, "mode": mode, "req": req, "kind": kind,
+                       "shuffle": shuffle, "const": const,
+                       "resow": const.startswith("farmer") and bi % 2 == 0}
 
 
 def worker_init():
